@@ -109,11 +109,12 @@ def scale_watchdog(plan):
     watchdog so that slowness is not mistaken for a hang, and the very long
     ones only go to the production-like build."""
     n = max([len(p["text"]) for p in plan["progs"]] or [0])
-    if n > 5000:
+    if n > 1500:
         plan["knobs"]["plain_only"] = 1
         plan["knobs"]["leakcheck"] = 0
-    if n > 1500:
-        plan["knobs"]["watchdog_s"] = int(plan["knobs"].get("watchdog_s", 5) + 6 * (n / 3000.0) ** 2 + 5)
+    if n > 400:
+        # per step; generous, because slow is not hung
+        plan["knobs"]["watchdog_s"] = 60
     return plan
 
 
